@@ -28,7 +28,7 @@ def sort_by_time(x):
         if min_channel < 0:
             channel -= min_channel
     else:
-        channel = np.ones(len(x))
+        channel = np.ones(len(x), dtype=np.int64)
 
     max_time_difference = (np.iinfo(np.int64).max - 10) / (channel.max() + 1)
     # Subtract 10 to have some extra margin, just in case.
